@@ -78,7 +78,7 @@ func checkC01(c *km.Ctx) {
 		checkLevelFlag(c, s, flag.Parent(), flag)
 	}
 	checkAnyMask(c, "R-C01-6")
-	checkConfigKeys(c, "R-C01-6", "the factors the operator requires", "baseConfig.AllowedAuthBackendsForCerts", "baseConfig.AllowedAuthBackendsForWebUI")
+	checkConfigKeys(c, "R-C01-6", "the factors the operator requires", "base.allowed_auth_backends_for_")
 	if flag == nil && decision == nil {
 		checkAuthBits(c, s, checkAuth, "R-C01-3")
 		checkKeymasterSigned(c, s, "R-C01-3")
